@@ -19,6 +19,25 @@
 //!   After a rasteriser's own rounding that is the statement's "within 1 unit".
 //! * phantom points: the compiler puts `ot_round(advance)` of each master into the phantom
 //!   points, so the same bound holds against the source; against HVAR the sum of both (<= 1).
+//! * HVAR/VVAR against the gvar phantom points at ANY location L (every master location of the
+//!   design — in particular the masters a sparse glyph has no source in — and the midpoints
+//!   between masters): both tables interpolate the same data, the glyph's rounded advances at its
+//!   own source locations. Let I(L) be that interpolation with exact (unrounded) deltas. A table T
+//!   stores each delta rounded once, d_r = δ_r + e_r with |e_r| <= 0.5 and e_r = 0 where δ_r is an
+//!   integer, so T(L) = I(L) + Σ_r s_r(L)·e_r and
+//!   |HVAR(L) − gvar(L)| <= 0.5·Σ_{r ∈ HVAR regions, frac} s_r(L) + 0.5·Σ_{t ∈ the glyph's gvar tuples, frac} s_t(L)
+//!   (each side rounds its own deltas; "frac" = can carry a non-integer delta, rule above, decided
+//!   per store / per glyph from the region list alone). The advance height from the phantom points
+//!   is the difference of two independently rounded points (top and bottom), so the gvar term of
+//!   the vertical bound is 1.0·Σ_t instead of 0.5·Σ_t. Plus 1e-6. The bound presumes that both
+//!   tables use one interpolation of the sparse data; that is what "agree with the gvar phantom
+//!   points at every master location" demands at a master the glyph is absent from.
+//!
+//! Routes: every case goes through designspace + UFO. The cases of the sparse spaces (`glyphs_twin`)
+//! whose design the Glyphs format can express are ALSO compiled from their Glyphs 3 twin
+//! (`dgen::Design::write_glyphs3`); that font gets the advance oracle only (the Glyphs writer does
+//! not carry the fontinfo keys of the metric alphabet), with keys prefixed `glyphs3/` and separate
+//! `g3_*` counters.
 
 use dgen::{Axis, Design, Glyph, Layer, MasterKind, ot_round, plist::Plist, shapes};
 use otvar::{ItemVarStore, VFont, ivs::region_scalar};
@@ -118,7 +137,7 @@ struct GlyphSpec {
 struct Case {
     space: String,
     n_axes: usize,
-    /// master locations on the grid {-1, 0, 0.5, 1} per axis (the intended normalized location)
+    /// master locations on the grid {-1, -0.5, 0, 0.5, 1} per axis (the intended normalized location)
     locs: Vec<Vec<f64>>,
     /// masters that are glyph-only layers of the default master's UFO
     layer_masters: Vec<usize>,
@@ -306,7 +325,30 @@ impl FracTol {
         FracTol { regions: vec![], peaks: vec![], frac: vec![] }
     }
     fn new(store: &ItemVarStore) -> FracTol {
-        let regions = store.regions.clone();
+        FracTol::from_regions(store.regions.clone())
+    }
+    /// the regions of a glyph's gvar tuples (implied region of a peak tuple: min(peak,0) .. max(peak,0))
+    fn of_tuples(ts: &[otvar::TupleVar]) -> FracTol {
+        FracTol::from_regions(
+            ts.iter()
+                .map(|t| {
+                    t.peak
+                        .iter()
+                        .enumerate()
+                        .map(|(a, &p)| match &t.intermediate {
+                            Some((st, en)) => (st[a], p, en[a]),
+                            None => (p.min(0.0), p, p.max(0.0)),
+                        })
+                        .collect()
+                })
+                .collect(),
+        )
+    }
+    /// Σ of the scalars at `coords` of the regions that can carry a fractional delta
+    fn sum_frac(&self, coords: &[f64]) -> f64 {
+        0.0 + (0..self.regions.len()).filter(|r| self.frac[*r]).map(|r| region_scalar(coords, &self.regions[r])).sum::<f64>()
+    }
+    fn from_regions(regions: Vec<Vec<(f64, f64, f64)>>) -> FracTol {
         let peaks: Vec<Vec<f64>> = regions.iter().map(|r| r.iter().map(|a| a.1).collect()).collect();
         let n = regions.len();
         let mut frac = vec![false; n];
@@ -410,6 +452,43 @@ struct Stats {
     phantom_exact: u64,
     vadvance_checks_master: u64,
     vadvance_checks_master_nonzero_delta: u64,
+    // HVAR/VVAR against the gvar phantom points (glyph x location comparisons)
+    fonts_with_glyph_absent_from_full_nondefault_master: u64,
+    fonts_with_master_no_glyph_has_a_source_in: u64,
+    agree_checks_own_master: u64,
+    agree_checks_absent_master: u64,
+    agree_checks_absent_master_varying_glyph: u64,
+    agree_checks_absent_master_nonzero_delta: u64,
+    agree_checks_off_master: u64,
+    agree_checks_off_master_nonzero_delta: u64,
+    agree_checks_synth_notdef: u64,
+    agree_checks_with_rounding_allowance: u64,
+    vagree_checks_own_master: u64,
+    vagree_checks_absent_master: u64,
+    vagree_checks_absent_master_nonzero_delta: u64,
+    vagree_checks_off_master: u64,
+    vagree_checks_off_master_nonzero_delta: u64,
+    // the Glyphs 3 twin (advance oracle only)
+    g3_unrepresentable: u64,
+    g3_fonts: u64,
+    g3_compile_errors: u64,
+    g3_compile_panics: u64,
+    g3_fonts_with_sparse_glyph: u64,
+    g3_fonts_with_layer_master: u64,
+    g3_fonts_hvar_indirect: u64,
+    g3_fonts_vvar: u64,
+    g3_advance_checks_default: u64,
+    g3_advance_checks_master: u64,
+    g3_advance_checks_master_nonzero_delta: u64,
+    g3_advance_checks_sparse_glyph: u64,
+    g3_phantom_checks: u64,
+    g3_vadvance_checks_master: u64,
+    g3_agree_checks_own_master: u64,
+    g3_agree_checks_absent_master: u64,
+    g3_agree_checks_absent_master_nonzero_delta: u64,
+    g3_agree_checks_off_master: u64,
+    g3_vagree_checks_absent_master: u64,
+    g3_vagree_checks_off_master: u64,
     mvar_checks_master: u64,
     mvar_checks_master_nonzero_delta: u64,
     mvar_absent_tag_constant_source: u64,
@@ -481,7 +560,145 @@ fn static_value(font: &FontRef, field: &str) -> Option<f64> {
     })
 }
 
-fn judge(case: &Case, d: &Design, res: &Result<Vec<u8>, fcx::Failure>, second: bool) -> Verdict {
+/// How the design reaches the compiler.
+#[derive(Clone, Copy, Debug, PartialEq, Eq)]
+enum Route {
+    /// designspace + UFOs: the whole oracle
+    Ufo,
+    /// the Glyphs 3 twin: advances only
+    Glyphs3,
+}
+
+/// The cases that are also compiled from their Glyphs 3 twin: the spaces about sparse glyphs.
+fn glyphs_twin(case: &Case) -> bool {
+    ["subsets/", "sparse/", "layer/", "vert-sparse"].iter().any(|p| case.space.starts_with(p))
+}
+
+/// Master locations of the design, then the midpoints of every pair of them that are not master
+/// locations themselves (multiples of 1/8: exact F2Dot14 values).
+fn eval_locations(coords: &[Vec<f64>]) -> Vec<Vec<f64>> {
+    let mut out: Vec<Vec<f64>> = coords.to_vec();
+    for i in 0..coords.len() {
+        for j in i + 1..coords.len() {
+            let mid: Vec<f64> = coords[i].iter().zip(&coords[j]).map(|(a, b)| (a + b) / 2.0).collect();
+            if !out.contains(&mid) {
+                out.push(mid);
+            }
+        }
+    }
+    out
+}
+
+struct AgreeCtx<'a> {
+    vf: &'a VFont<'a>,
+    /// the master locations (indices < nm), then the off-master locations
+    locs: &'a [Vec<f64>],
+    nm: usize,
+    dm: usize,
+    htol: &'a FracTol,
+    vtol: &'a FracTol,
+    vertical: bool,
+}
+
+/// hmtx+HVAR (vmtx+VVAR) of one glyph against its gvar phantom points at every location of `cx.locs`
+/// (tolerance: module doc). `own(m)`: the glyph has a source of its own at master m; `label`: full /
+/// sparse / default-only / synth.
+fn agree(cx: &AgreeCtx, gid: u16, name: &str, own: &dyn Fn(usize) -> bool, label: &str, st: &mut Stats, viol: &mut Vec<(String, String)>) {
+    let vf = cx.vf;
+    let gtol = match vf.glyph_tuples(gid) {
+        Ok(ts) => FracTol::of_tuples(&ts),
+        Err(e) => {
+            viol.push(("glyph-undecodable".into(), format!("glyph {name}: gvar tuples: {e}")));
+            return;
+        }
+    };
+    let varying = (0..cx.nm).filter(|m| own(*m)).count() >= 2;
+    let h0 = vf.h_advance_default(gid);
+    let v0 = vf.v_advance_default(gid);
+    for (li, loc) in cx.locs.iter().enumerate() {
+        let wher = if li >= cx.nm {
+            "off-master"
+        } else if own(li) {
+            "own-master"
+        } else {
+            "absent-master"
+        };
+        let ig = match vf.glyph_at(gid, loc) {
+            Ok(ig) => ig,
+            Err(e) => {
+                viol.push(("glyph-undecodable".into(), format!("glyph {name} at {loc:?}: {e}")));
+                continue;
+            }
+        };
+        let h = vf.h_advance_at(gid, loc);
+        let p = ig.advance_from_phantoms;
+        let (sh, sg) = (cx.htol.sum_frac(loc), gtol.sum_frac(loc));
+        let tol = if li == cx.dm { EPS } else { 0.5 * sh + 0.5 * sg + EPS };
+        if sh + sg > 0.0 {
+            st.agree_checks_with_rounding_allowance += 1;
+        }
+        let moved = (h - h0).abs() > EPS || (p - h0).abs() > EPS;
+        if label == "synth" {
+            st.agree_checks_synth_notdef += 1;
+        } else {
+            match wher {
+                "own-master" => st.agree_checks_own_master += 1,
+                "absent-master" => {
+                    st.agree_checks_absent_master += 1;
+                    st.agree_checks_absent_master_varying_glyph += varying as u64;
+                    st.agree_checks_absent_master_nonzero_delta += moved as u64;
+                }
+                _ => {
+                    st.agree_checks_off_master += 1;
+                    st.agree_checks_off_master_nonzero_delta += moved as u64;
+                }
+            }
+        }
+        if (h - p).abs() > tol {
+            viol.push((
+                format!("hvar-gvar-disagree:h:{wher}:{label}"),
+                format!(
+                    "glyph {name} (gid {gid}, {label}) at {loc:?} ({wher}): hmtx+HVAR = {h}, the gvar phantom points give {p} (allowed {tol:.3} = 0.5*{sh} + 0.5*{sg}); hmtx {h0}, HVAR var index {:?}, gvar tuple scalars {:?}",
+                    vf.h_advance_var_index(gid),
+                    ig.tuple_scalars
+                ),
+            ));
+        }
+        if !cx.vertical {
+            continue;
+        }
+        let (Some(v), Some(v0)) = (vf.v_advance_at(gid, loc), v0) else { continue };
+        let pv = ig.v_advance_from_phantoms;
+        let sv = cx.vtol.sum_frac(loc);
+        // the advance height from the phantom points is top - bottom: two rounded points per tuple
+        let tol = if li == cx.dm { EPS } else { 0.5 * sv + 1.0 * sg + EPS };
+        let moved = (v - v0).abs() > EPS || (pv - v0).abs() > EPS;
+        if label != "synth" {
+            match wher {
+                "own-master" => st.vagree_checks_own_master += 1,
+                "absent-master" => {
+                    st.vagree_checks_absent_master += 1;
+                    st.vagree_checks_absent_master_nonzero_delta += moved as u64;
+                }
+                _ => {
+                    st.vagree_checks_off_master += 1;
+                    st.vagree_checks_off_master_nonzero_delta += moved as u64;
+                }
+            }
+        }
+        if (v - pv).abs() > tol {
+            viol.push((
+                format!("hvar-gvar-disagree:v:{wher}:{label}"),
+                format!(
+                    "glyph {name} (gid {gid}, {label}) at {loc:?} ({wher}): vmtx+VVAR = {v}, the gvar phantom points give {pv} (allowed {tol:.3} = 0.5*{sv} + 1.0*{sg}); vmtx {v0}, gvar tuple scalars {:?}",
+                    ig.tuple_scalars
+                ),
+            ));
+        }
+    }
+}
+
+fn judge(case: &Case, d: &Design, res: &Result<Vec<u8>, fcx::Failure>, second: bool, route: Route) -> Verdict {
     let mut st = Stats { evaluations: 1, ..Default::default() };
     let mut viol: Vec<(String, String)> = vec![];
     let mut nontrivial = false;
@@ -591,8 +808,22 @@ fn judge(case: &Case, d: &Design, res: &Result<Vec<u8>, fcx::Failure>, second: b
 
     let names = vf.glyph_names();
     let mut obs_adv = vec![];
+    // Glyphs: vertical metrics are built when a layer has a vertWidth; a layer without one gets the
+    // compiler's default height (typo ascender - descender), which the source does not state
+    let vertical = case.vertical && (route == Route::Ufo || case.glyphs.iter().any(|g| g.height.iter().any(|h| h.is_some())));
+    let locs = eval_locations(&coords);
+    {
+        let full_nondefault: Vec<usize> = (0..nm).filter(|m| *m != dm && !case.is_layer(*m)).collect();
+        if case.glyphs.iter().any(|g| g.adv.iter().filter(|a| a.is_some()).count() >= 2 && full_nondefault.iter().any(|m| g.adv[*m].is_none())) {
+            st.fonts_with_glyph_absent_from_full_nondefault_master = 1;
+        }
+        if (0..nm).any(|m| case.glyphs.iter().all(|g| g.adv[m].is_none())) {
+            st.fonts_with_master_no_glyph_has_a_source_in = 1;
+        }
+    }
 
     // ---- advances
+    let acx = AgreeCtx { vf: &vf, locs: &locs, nm, dm, htol: &htol, vtol: &vtol, vertical };
     for g in &case.glyphs {
         let Some(gid) = names.iter().position(|n| *n == g.name).map(|i| i as u16) else {
             viol.push(("glyph-missing".into(), format!("glyph {} of the design is not in the font (post names {names:?})", g.name)));
@@ -658,7 +889,7 @@ fn judge(case: &Case, d: &Design, res: &Result<Vec<u8>, fcx::Failure>, second: b
                             ),
                         ));
                     }
-                    if case.vertical {
+                    if vertical {
                         let vexp = ot_round(g.height[m].unwrap_or(0.0));
                         let vph = ig.v_advance_from_phantoms;
                         if let Some(vgot) = vf.v_advance_at(gid, &coords[m]) {
@@ -677,7 +908,7 @@ fn judge(case: &Case, d: &Design, res: &Result<Vec<u8>, fcx::Failure>, second: b
                 }
                 Err(e) => viol.push(("glyph-undecodable".into(), format!("glyph {} at master {m}: {e}", g.name))),
             }
-            if case.vertical {
+            if vertical && (route == Route::Ufo || (g.height[m].is_some() && g.height[dm].is_some())) {
                 let vexp = ot_round(g.height[m].unwrap_or(0.0));
                 let vdef = ot_round(g.height[dm].unwrap_or(0.0));
                 match vf.v_advance_at(gid, &coords[m]) {
@@ -718,13 +949,24 @@ fn judge(case: &Case, d: &Design, res: &Result<Vec<u8>, fcx::Failure>, second: b
                 }
             }
         }
+        let label = if defined.len() == 1 { "default-only" } else { sp };
+        agree(&acx, gid, &g.name, &|m| g.adv[m].is_some(), label, &mut st, &mut viol);
     }
-    // the synthesised .notdef has one definition only; a varying advance is recorded, not judged
+    // the synthesised .notdef has one definition only; a varying advance is recorded, not judged against a
+    // source value; HVAR/VVAR and the phantom points must still tell the same story
     if notdef.is_none() && names.first().map(|s| s.as_str()) == Some(".notdef") {
         let a0 = vf.h_advance_default(0);
         if (0..nm).any(|m| (vf.h_advance_at(0, &coords[m]) - a0).abs() > EPS) {
             st.synth_notdef_varies = 1;
         }
+        agree(&acx, 0, ".notdef", &|_| false, "synth", &mut st, &mut viol);
+    }
+
+    if route == Route::Glyphs3 {
+        // the Glyphs writer does not carry the fontinfo keys of the metric alphabet: advances only
+        st.nontrivial = nontrivial as u64;
+        let obs = json!({"route": "glyphs3", "hvar": hmode, "vvar": vmode, "glyph_names": names, "advance_mismatches": obs_adv});
+        return Verdict { stats: st, viol, obs, nontrivial };
     }
 
     // ---- global metrics
@@ -871,15 +1113,58 @@ fn judge(case: &Case, d: &Design, res: &Result<Vec<u8>, fcx::Failure>, second: b
     Verdict { stats: st, viol, obs, nontrivial }
 }
 
-fn run_case(case: &Case, second: bool) -> (Design, Verdict) {
+/// The design, the verdict on the font from the UFO route and, for the cases of `glyphs_twin` that the
+/// Glyphs format can express, the verdict on the font from the Glyphs 3 twin (its stats folded into the
+/// `g3_*` counters of the first).
+fn run_case(case: &Case, second: bool) -> (Design, Verdict, Option<Verdict>) {
     let d = build(case);
     let sc = vcore::Scratch::new("c04");
     let path = d
         .write_designspace(sc.path())
         .unwrap_or_else(|e| vcore::machinery_error(&format!("writing the source: {e}")));
     let r = fcx::compile(&path, &fcx::Opts::default(), None);
-    let v = judge(case, &d, &r, second);
-    (d, v)
+    let mut v = judge(case, &d, &r, second, Route::Ufo);
+    let mut g3 = None;
+    if glyphs_twin(case) {
+        if d.glyphs_unrepresentable().is_empty() {
+            let sc = vcore::Scratch::new("c04g");
+            let path = d
+                .write_glyphs3(sc.path())
+                .unwrap_or_else(|e| vcore::machinery_error(&format!("writing the Glyphs 3 source: {e}")));
+            let r = fcx::compile(&path, &fcx::Opts::default(), None);
+            let mut gv = judge(case, &d, &r, false, Route::Glyphs3);
+            for (k, _) in gv.viol.iter_mut() {
+                *k = format!("glyphs3/{k}");
+            }
+            fold_g3(&mut v.stats, &gv.stats);
+            g3 = Some(gv);
+        } else {
+            v.stats.g3_unrepresentable = 1;
+        }
+    }
+    (d, v, g3)
+}
+
+fn fold_g3(m: &mut Stats, g: &Stats) {
+    m.g3_fonts += g.compiled;
+    m.g3_compile_errors += g.compile_errors;
+    m.g3_compile_panics += g.compile_panics;
+    m.g3_fonts_with_sparse_glyph += g.fonts_with_sparse_glyph;
+    m.g3_fonts_with_layer_master += g.fonts_with_layer_master;
+    m.g3_fonts_hvar_indirect += g.fonts_hvar_indirect;
+    m.g3_fonts_vvar += g.fonts_vvar;
+    m.g3_advance_checks_default += g.advance_checks_default;
+    m.g3_advance_checks_master += g.advance_checks_master;
+    m.g3_advance_checks_master_nonzero_delta += g.advance_checks_master_nonzero_delta;
+    m.g3_advance_checks_sparse_glyph += g.advance_checks_sparse_glyph;
+    m.g3_phantom_checks += g.phantom_checks;
+    m.g3_vadvance_checks_master += g.vadvance_checks_master;
+    m.g3_agree_checks_own_master += g.agree_checks_own_master;
+    m.g3_agree_checks_absent_master += g.agree_checks_absent_master;
+    m.g3_agree_checks_absent_master_nonzero_delta += g.agree_checks_absent_master_nonzero_delta;
+    m.g3_agree_checks_off_master += g.agree_checks_off_master;
+    m.g3_vagree_checks_absent_master += g.vagree_checks_absent_master;
+    m.g3_vagree_checks_off_master += g.vagree_checks_off_master;
 }
 
 // ------------------------------------------------------------------ enumeration
@@ -1104,6 +1389,82 @@ fn spaces(tier: Tier) -> Vec<Space> {
                 c
             }),
         });
+    }
+
+    // ---- P: EVERY glyph on every subset of the masters that contains the default (so that a master may
+    // be left without any glyph), horizontal and vertical; judged at every master location and midpoint
+    {
+        let v1 = |v: &[f64]| v.iter().map(|x| vec![*x]).collect::<Vec<_>>();
+        let mut layouts: Vec<(&str, Vec<Vec<f64>>, Vec<usize>)> = vec![
+            ("1ax-3", one[2].clone(), vec![]),
+            ("1ax-3i", one[3].clone(), vec![]),
+            ("1ax-4", one[4].clone(), vec![]),
+            ("1ax-2+layer", v1(&[0.0, 1.0, 0.5]), vec![2]),
+            ("1ax-3+layer", v1(&[-1.0, 0.0, 1.0, 0.5]), vec![3]),
+            ("2ax-corner3", vec![vec![0.0, 0.0], vec![1.0, 0.0], vec![0.0, 1.0]], vec![]),
+            ("2ax-corner4", vec![vec![0.0, 0.0], vec![1.0, 0.0], vec![0.0, 1.0], vec![1.0, 1.0]], vec![]),
+            ("2ax-corner4r", vec![vec![1.0, 1.0], vec![0.0, 1.0], vec![1.0, 0.0], vec![0.0, 0.0]], vec![]),
+        ];
+        if thorough {
+            layouts.push(("2ax-cross5", vec![vec![-1.0, 0.0], vec![0.0, -1.0], vec![0.0, 0.0], vec![1.0, 0.0], vec![0.0, 1.0]], vec![]));
+            layouts.push(("2ax-corner4+layer", vec![vec![0.0, 0.0], vec![1.0, 0.0], vec![0.0, 1.0], vec![1.0, 1.0], vec![0.5, 0.0]], vec![4]));
+            layouts.push(("1ax-4+layer", v1(&[-1.0, 0.0, 0.5, 1.0, -0.5]), vec![4]));
+        }
+        for (lname, set, layers) in layouts {
+            let nm = set.len();
+            let dm = set.iter().position(|l| l.iter().all(|v| *v == 0.0)).unwrap();
+            let subs = subsets_with(nm, dm);
+            let ns = subs.len();
+            // glyphs: .notdef (absent or on a subset), A (contour), B (empty); thorough adds C (contour) up to 4 masters
+            let with_c = thorough && nm <= 4;
+            let n = (ns + 1) * ns * ns * if with_c { ns } else { 1 } * 2;
+            let name = format!("subsets/{lname}");
+            let name2 = name.clone();
+            let set2 = set.clone();
+            let layers2 = layers.clone();
+            out.push(Space {
+                name,
+                what: format!(
+                    "masters {:?} (glyph-only layer masters: {:?}); .notdef absent or on every master subset containing the default, A (contour) and B (empty){} each on every such subset, independently (a master may be left without any glyph); advances and heights fixed and different in every master; vertical metrics off/on (heights explicit); also compiled from the Glyphs 3 twin",
+                    set,
+                    layers,
+                    if with_c { " and C (contour)" } else { "" }
+                ),
+                n,
+                make: Box::new(move |i| {
+                    let vertical = i % 2 == 1;
+                    let mut i = i / 2;
+                    let mut pick = |base: usize| {
+                        let k = i % base;
+                        i /= base;
+                        k
+                    };
+                    let (ka, kb) = (pick(ns), pick(ns));
+                    let kc = if with_c { Some(pick(ns)) } else { None };
+                    let knd = pick(ns + 1);
+                    let mut c = Case::new(&name2, set2.clone());
+                    c.layer_masters = layers2.clone();
+                    c.vertical = vertical;
+                    let hp = |salt: usize| (0..nm).map(|m| Some(1000.0 + 50.0 * ((m + salt) % 3) as f64 - 100.0 * ((m * 2 + salt) % 2) as f64 + if m % 2 == 1 { 0.5 } else { 0.0 })).collect::<Vec<_>>();
+                    let mk = |gname: &str, pat: Vec<Option<f64>>, sub: &Vec<bool>, salt: usize, contour: bool| {
+                        let mut g = gspec(gname, pat.iter().zip(sub).map(|(p, on)| if *on { *p } else { None }).collect(), contour);
+                        if vertical {
+                            g.height = hp(salt).iter().zip(sub).map(|(p, on)| if *on { *p } else { None }).collect();
+                        }
+                        g
+                    };
+                    if knd > 0 {
+                        c.glyphs.push(mk(".notdef", (0..nm).map(|m| Some(500.0 + 33.0 * m as f64)).collect(), &subs[knd - 1], 2, true));
+                    }
+                    c.glyphs.push(mk("A", varied_pattern(nm, 0), &subs[ka], 0, true));
+                    c.glyphs.push(mk("B", varied_pattern(nm, 3), &subs[kb], 1, false));
+                    if let Some(kc) = kc {
+                        c.glyphs.push(mk("C", varied_pattern(nm, 5), &subs[kc], 3, true));
+                    }
+                    c
+                }),
+            });
+        }
     }
 
     // ---- L: a glyph-only intermediate layer master
@@ -1464,7 +1825,11 @@ fn replay(path: &std::path::Path) -> ! {
     let v: Value = serde_json::from_str(&s).unwrap_or_else(|e| vcore::machinery_error(&format!("{path:?}: {e}")));
     let r = v.get("replay").cloned().unwrap_or(v);
     let case: Case = serde_json::from_value(r["case"].clone()).unwrap_or_else(|e| vcore::machinery_error(&format!("case: {e}")));
-    let (d, verdict) = run_case(&case, true);
+    let (d, mut verdict, g3) = run_case(&case, true);
+    if let Some(g) = g3 {
+        println!("glyphs3 route observation: {}", serde_json::to_string(&g.obs).unwrap());
+        verdict.viol.extend(g.viol);
+    }
     if let Some(stored) = r.get("design") {
         if let Ok(sd) = serde_json::from_value::<Design>(stored.clone()) {
             if sd != d {
@@ -1512,7 +1877,11 @@ fn main() {
         let i: usize = args.rest.get(2).and_then(|s| s.parse().ok()).unwrap_or(0);
         let s = sp.iter().find(|s| s.name == name).unwrap_or_else(|| vcore::machinery_error("no such space"));
         let case = (s.make)(i);
-        let (_, v) = run_case(&case, true);
+        let (_, mut v, g3) = run_case(&case, true);
+        if let Some(g) = g3 {
+            println!("glyphs3 route: {}", serde_json::to_string(&g.obs).unwrap());
+            v.viol.extend(g.viol);
+        }
         println!("{}", serde_json::to_string(&case).unwrap());
         println!("{}", serde_json::to_string_pretty(&v.obs).unwrap());
         println!("{}", serde_json::to_string_pretty(&v.stats).unwrap());
@@ -1523,7 +1892,16 @@ fn main() {
         return;
     }
     let mut rep = Reporter::new("C04", "exploration", &args);
-    let sp = spaces(args.tier);
+    let mut sp = spaces(args.tier);
+    // `c04 <tier> only <prefix>`: run the spaces whose name starts with <prefix> (debugging aid; the run is
+    // reported as not exhaustive)
+    let only: Option<String> = (args.rest.first().map(|s| s.as_str()) == Some("only")).then(|| args.rest.get(1).cloned().unwrap_or_default());
+    if let Some(p) = &only {
+        sp.retain(|s| s.name.starts_with(p.as_str()));
+        if sp.is_empty() {
+            vcore::machinery_error("no space with that prefix");
+        }
+    }
     let mut starts = vec![];
     let mut total = 0usize;
     for s in &sp {
@@ -1557,8 +1935,14 @@ fn main() {
         for gi in ci * chunk..((ci + 1) * chunk).min(total) {
             let (si, li) = locate(gi);
             let case = (sp[si].make)(li);
-            let (d, v) = run_case(&case, gi % 8 == 0);
+            let (d, mut v, g3) = run_case(&case, gi % 8 == 0);
             add_stats(&mut st, &v.stats);
+            if let Some(g) = g3 {
+                if g.stats.compile_errors > 0 && errors.len() < 2 {
+                    errors.push(json!({"case": case, "route": "glyphs3", "error": g.obs}));
+                }
+                v.viol.extend(g.viol);
+            }
             let e = per_space.entry(sp[si].name.clone()).or_default();
             e.0 += 1;
             if v.nontrivial {
@@ -1619,6 +2003,36 @@ fn main() {
     );
     rep.set("counts", serde_json::to_value(&tot).unwrap());
     rep.set(
+        "hvar_vs_phantom_points",
+        json!({
+            "glyph_x_master_comparisons_where_the_glyph_has_no_source": tot.agree_checks_absent_master,
+            "of_those_glyph_has_two_or_more_sources": tot.agree_checks_absent_master_varying_glyph,
+            "of_those_value_differs_from_default": tot.agree_checks_absent_master_nonzero_delta,
+            "glyph_x_own_master_comparisons": tot.agree_checks_own_master,
+            "glyph_x_off_master_midpoint_comparisons": tot.agree_checks_off_master,
+            "synthesised_notdef_comparisons": tot.agree_checks_synth_notdef,
+            "comparisons_with_a_rounding_allowance": tot.agree_checks_with_rounding_allowance,
+            "heights_no_source": tot.vagree_checks_absent_master,
+            "heights_off_master": tot.vagree_checks_off_master,
+            "fonts_with_glyph_absent_from_full_nondefault_master": tot.fonts_with_glyph_absent_from_full_nondefault_master,
+            "fonts_with_a_master_no_glyph_has_a_source_in": tot.fonts_with_master_no_glyph_has_a_source_in,
+        }),
+    );
+    rep.set(
+        "glyphs3_route",
+        json!({
+            "fonts": tot.g3_fonts,
+            "compile_errors": tot.g3_compile_errors,
+            "designs_not_expressible": tot.g3_unrepresentable,
+            "fonts_with_sparse_glyph": tot.g3_fonts_with_sparse_glyph,
+            "fonts_with_brace_layer": tot.g3_fonts_with_layer_master,
+            "advance_checks_nondefault_master": tot.g3_advance_checks_master,
+            "hvar_vs_phantom_no_source": tot.g3_agree_checks_absent_master,
+            "hvar_vs_phantom_off_master": tot.g3_agree_checks_off_master,
+            "heights_no_source": tot.g3_vagree_checks_absent_master,
+        }),
+    );
+    rep.set(
         "spaces",
         Value::Array(
             sp.iter()
@@ -1639,11 +2053,17 @@ fn main() {
     rep.set("samples", samples);
     rep.set("compile_error_samples", errors);
     rep.set("skipped_by_time_budget", skipped);
-    rep.set("exhaustive", skipped == 0 && tot.compile_errors == 0);
-    rep.assume("sources are UFO 3 + designspace 4.1 written by dgen, upem 1000, axes wght (100/400/900) and wdth (50/100/200), master locations on the grid {-1,0,0.5,1} per axis (exactly representable as F2Dot14, so the font's own fvar/avar normalisation of a master's user location is the grid point; checked per case)");
+    rep.set("exhaustive", skipped == 0 && tot.compile_errors == 0 && tot.g3_compile_errors == 0 && only.is_none());
+    if let Some(p) = &only {
+        rep.set("restricted_to_spaces_with_prefix", p.clone());
+    }
+    rep.assume("sources are UFO 3 + designspace 4.1 written by dgen, upem 1000, axes wght (100/400/900) and wdth (50/100/200), master locations on the grid {-1,-0.5,0,0.5,1} per axis (exactly representable as F2Dot14, so the font's own fvar/avar normalisation of a master's user location is the grid point; checked per case)");
     rep.assume("glyphs are simple (one rectangle following the advance, or empty); composites and USE_MY_METRICS are C03's subject");
     rep.assume("hhea ascender/descender/lineGap have no MVAR value tag (OpenType MVAR value tags hasc/hdsc/hlgp address OS/2 typo metrics): only their default-location value is judged");
-    rep.assume("a glyph is judged at the masters where it has a layer; the synthesised .notdef (no source) and masters where a sparse glyph is undefined are not constrained by the statement (a varying synthesised .notdef is counted in synth_notdef_varies)");
+    rep.assume("against SOURCE values a glyph is judged at the masters where it has a layer; the synthesised .notdef (no source) has no source value (a varying one is counted in synth_notdef_varies). hmtx+HVAR / vmtx+VVAR against the gvar phantom points is judged for every glyph of the font (the synthesised .notdef too) at EVERY master location of the design (full and glyph-only layer masters), whether or not the glyph has a source there, and at the midpoint of every pair of master locations");
+    rep.assume("agreement of HVAR/VVAR with the phantom points presumes one interpolation of a sparse glyph's data in both tables (at a master the glyph is absent from the statement demands agreement, and no other value is given there); the midpoints go beyond the statement's 'every master location' and have their own key (..:off-master:..)");
+    rep.assume("tolerance HVAR vs phantom points at a non-default location L: 0.5*sum of scalars at L of the HVAR regions that can carry a fractional delta + 0.5*the same sum over the glyph's gvar tuples + 1e-6 (each side rounds its own deltas once); heights: 0.5*(VVAR sum) + 1.0*(gvar sum), the advance height being the difference of two rounded phantom points; exact at the default location");
+    rep.assume("the Glyphs 3 twin (spaces subsets/, sparse/, layer/, vert-sparse; designs the Glyphs format can express) is judged on advances only: the Glyphs writer of dgen does not carry the fontinfo keys of the metric alphabet; vertical metrics there come from the layers' vertWidth (all explicit in those spaces)");
     rep.assume("where fontinfo keys are omitted the compiler's ufo2ft-style fallback formulas decide the values; there only 'constant fontinfo => no MVAR delta' and the explicitly given xHeight/capHeight are judged. Exception: hhea caret rise/run with the keys omitted are judged against ufo2ft's fallback upem / round(upem*tan(-italicAngle))");
     rep.assume("vmtx advance of a glyph without a height attribute is 0 (UFO glif default)");
     rep.assume("tolerance at a non-default master: 0.5 + 0.5*sum of scalars of other regions that can carry a fractional delta + 1e-6 (derivation in the module doc); exact at the default location; phantom points vs HVAR/VVAR twice that");
